@@ -28,6 +28,7 @@ EXTENDS Nested, Json, IOUtils
 Track  == IOEnv.TRACK
 MaxLen == atoi(IOEnv.MAXLEN)
 Size   == IOEnv.SIZE            \* "small" (quick) / "large" (thorough)
+Dirs   == IOEnv.DIRS            \* "both": the current value is used as left and as right argument; "right": only as left
 
 \* ------------------------------------------------------------------ universes
 A(l) == Atom(l)
@@ -82,7 +83,29 @@ Init ==
   /\ IF Track = "pairs" THEN cur \in PairDicts ELSE cur = EmptyDict
   /\ start = cur
 
-Ev(op, arg, m1, m2) == [op |-> op, d |-> arg, m1 |-> m1, m2 |-> m2]
+\* input shape of a pair of dictionaries (names the finding if the real call deviates)
+PairShape(l, r) ==
+  IF TopKeys(l) \cap TopKeys(r) = {} THEN "no-shared-top-key"
+  ELSE IF Agree(l, r) THEN (IF \E e \in l : \E f \in r : e[1] = f[1] /\ Len(e[1]) = 2 THEN "agreeing-at-depth-2"
+                           ELSE "agreeing-shared-keys")
+  ELSE IF \E e \in l : \E f \in r :
+            (e[2] # EMPTY /\ ProperPrefix(e[1], f[1])) \/ (f[2] # EMPTY /\ ProperPrefix(f[1], e[1]))
+               \/ (e[1] = f[1] /\ e[2] # f[2] /\ EMPTY \in {e[2], f[2]})
+       THEN "leaf-against-dictionary"
+  ELSE IF \E e \in l : \E f \in r : e[1] = f[1] /\ e[2] # f[2] /\ Len(e[1]) = 1 THEN "conflicting-leaves-at-depth-1"
+  ELSE "conflicting-leaves-at-depth-2"
+Ev(op, arg, m1, m2) == [op |-> op, d |-> arg, m1 |-> m1, m2 |-> m2, shape |-> PairShape(cur, arg)]
+\* input shape of an n-ary join
+Adjacent(i, j) == j = i + 1
+JoinShape(Rs) ==
+  IF Rs = <<>> THEN "zero-relations"
+  ELSE IF \E i \in 1..Len(Rs) : Rs[i] = <<>> THEN "an-empty-relation"
+  ELSE IF \E c \in RangeOf(Combos(Rs)) :
+            /\ \E i \in 1..Len(c) : \E j \in 1..Len(c) : i < j /\ ~Agree(c[i], c[j])
+            /\ \A i \in 1..Len(c) : \A j \in 1..Len(c) : (i < j /\ ~Agree(c[i], c[j])) => ~Adjacent(i, j)
+       THEN "rows-conflicting-only-between-non-adjacent-relations"
+  ELSE IF \E c \in RangeOf(Combos(Rs)) : ~PairwiseMatch(c) THEN "some-rows-conflict"
+  ELSE "all-rows-join"
 \* cur := dict_merge(cur, d); also observed: dict_match(cur, d), dict_match(d, cur)
 MergeR(d) ==
   /\ cur' = MergeRec(cur, d)
@@ -104,17 +127,17 @@ JoinL(R) ==
 
 Next ==
   /\ Len(hist) < MaxLen
-  /\ IF Track = "join" THEN \E R \in Rels : JoinR(R) \/ JoinL(R)
+  /\ IF Track = "join" THEN \E R \in Rels : JoinR(R) \/ (Dirs = "both" /\ JoinL(R))
      ELSE IF Track = "pairs" THEN \E d \in MergeArgs : MergeR(d)
-     ELSE \E d \in MergeArgs : MergeR(d) \/ MergeL(d)
+     ELSE \E d \in MergeArgs : MergeR(d) \/ (Dirs = "both" /\ MergeL(d))
 Spec == Init /\ [][Next]_vars
 
 \* ------------------------------------------------------------------ emission (pipeline A)
 Emit ==
-  hist # <<>> =>
-    IF Track = "join"
-    THEN PrintT(ToJson([track |-> Track, hist |-> hist, acc |-> acc, rels |-> rels, nary |-> JoinN(rels)]))
-    ELSE PrintT(ToJson([track |-> Track, start |-> start, hist |-> hist, cur |-> cur]))
+  IF Track = "join"
+  THEN PrintT(ToJson([track |-> Track, hist |-> hist, acc |-> acc, rels |-> rels, nary |-> JoinN(rels),
+                      shape |-> JoinShape(rels)]))
+  ELSE hist # <<>> => PrintT(ToJson([track |-> Track, start |-> start, hist |-> hist, cur |-> cur]))
 
 \* ------------------------------------------------------------------ (P) properties
 \* instance filter / closure: everything is a well-formed nested dictionary of bounded depth
@@ -145,14 +168,16 @@ MergeOfMatchingIsUnion ==
                       /\ MergeRec(d, cur) = MergeRec(cur, d)
 MergeIdentity == MergeRec(cur, EmptyDict) = cur /\ MergeRec(EmptyDict, cur) = cur
 \* natural_join is the relational natural join: as a set of rows, in either order
+\* (states at the length bound have no successors: the joins out of them are not part of the run)
+JoinJudged == Track = "join" /\ Len(hist) < MaxLen
 JoinIsRelational ==
-  Track = "join" => \A R \in Rels :
+  JoinJudged => \A R \in Rels :
      /\ RangeOf(JoinSeq(acc, R)) = JoinO(RangeOf(acc), RangeOf(R))
      /\ RangeOf(JoinSeq(R, acc)) = RangeOf(JoinSeq(acc, R))
      /\ Len(JoinSeq(acc, R)) = Cardinality({p \in (1..Len(acc)) \X (1..Len(R)) : Agree(acc[p[1]], R[p[2]])})
 \* [{}] is the identity of the join, the empty relation annihilates
 JoinIdentity ==
-  Track = "join" => /\ JoinSeq(acc, <<EmptyDict>>) = acc /\ JoinSeq(<<EmptyDict>>, acc) = acc
+  JoinJudged => /\ JoinSeq(acc, <<EmptyDict>>) = acc /\ JoinSeq(<<EmptyDict>>, acc) = acc
                     /\ JoinSeq(acc, <<>>) = <<>> /\ JoinSeq(<<>>, acc) = <<>>
 \* the n-ary call (all pairs of rows must match, merge left to right from {}) is the fold of binary joins,
 \* row for row in the same order
